@@ -1,15 +1,17 @@
 ------------------------------- MODULE MC_Order -------------------------------
 (* The lexicographic order of Order.tla is a strict total order on sequences of equal length, and *)
-(* the six derived operators are mutually consistent (checked for all triples of length-3         *)
-(* sequences over three ranks).                                                                    *)
+(* the six derived operators are mutually consistent (checked for all triples of sequences of     *)
+(* equal length 1..4 over three ranks).  FirstDifference ties the recursive definition to the     *)
+(* first-difference form Lt of Order_proofs.tla, whose laws tlapm proves for every length and all  *)
+(* integer ranks.                                                                                  *)
 EXTENDS Order, TLC
 VARIABLES a, b, c
-S == [1..3 -> 0..2]
-Init == a \in S /\ b \in S /\ c \in S
+S(n) == [1..n -> 0..2]
+Init == \E n \in 1..4 : a \in S(n) /\ b \in S(n) /\ c \in S(n)
 Next == UNCHANGED <<a, b, c>>
 Spec == Init /\ [][Next]_<<a, b, c>>
 Tri == (IF LexLess(a, b) THEN 1 ELSE 0) + (IF LexLess(b, a) THEN 1 ELSE 0) + (IF a = b THEN 1 ELSE 0) = 1
 Trans == LexLess(a, b) /\ LexLess(b, c) => LexLess(a, c)
 Derived == LET k == Compare(a, b) IN k.le = (k.lt \/ k.eq) /\ k.ge = (k.gt \/ k.eq) /\ k.ne = ~k.eq /\ (k.lt => ~k.gt)
-FirstDifference == LexLess(a, b) <=> \E i \in 1..3 : a[i] < b[i] /\ \A j \in 1..(i - 1) : a[j] = b[j]
+FirstDifference == LexLess(a, b) <=> \E i \in 1..Len(a) : a[i] < b[i] /\ \A j \in 1..(i - 1) : a[j] = b[j]
 =============================================================================
